@@ -54,4 +54,50 @@ theorem blockStep_KVInv (e : Env) (prop : String) (i : Nat) (s : St) (hid : e.tx
   obtain ⟨f1, f2, _⟩ := payFee_frame (e.tx i) prop (e.tx i).outs 0 (applyTx s (e.tx i))
   exact KVInv_of_tables e _ _ (applyTx_KVInv' e s (e.tx i) hid h) f1 f2
 
+theorem blockStep_frame (e : Env) (prop : String) (i : Nat) (s : St) :
+    (blockStep e prop i s).pointer = s.pointer ∧ (blockStep e prop i s).irrev = s.irrev ∧
+    (blockStep e prop i s).pool = s.pool := by
+  unfold blockStep
+  obtain ⟨_, _, _, f1, f2, f3⟩ := payFee_frame (e.tx i) prop (e.tx i).outs 0 (applyTx s (e.tx i))
+  obtain ⟨a1, a2, a3⟩ := applyTx_frame s (e.tx i)
+  exact ⟨f1.trans a1, f2.trans a2, f3.trans a3⟩
+
+/-- the forward run without the admission checks -/
+def replayTxs (e : Env) (prop : String) (l : List Nat) (s : St) : St :=
+  l.foldl (fun st i => blockStep e prop i st) s
+
+theorem replayTxs_cons (e : Env) (prop : String) (i : Nat) (rest : List Nat) (s : St) :
+    replayTxs e prop (i :: rest) s = replayTxs e prop rest (blockStep e prop i s) := rfl
+
+/-- a successful forward run returns exactly the replay -/
+theorem applyBlockTxs_ok_eq (e : Env) (lh : Int) (prop : String) (l : List Nat) (s s2 : St)
+    (h : applyBlockTxs e lh prop [] l s = some (s2, .ok)) : s2 = replayTxs e prop l s := by
+  induction l generalizing s with
+  | nil => exact applyBlockTxs_nil_ok e lh prop s s2 h
+  | cons i rest ih =>
+    obtain ⟨_, hrest⟩ := applyBlockTxs_cons_ok e lh prop i rest s s2 h
+    rw [replayTxs_cons]
+    exact ih _ hrest
+
+theorem replayTxs_frame (e : Env) (prop : String) (l : List Nat) (s : St) :
+    (replayTxs e prop l s).pointer = s.pointer ∧ (replayTxs e prop l s).irrev = s.irrev ∧
+    (replayTxs e prop l s).pool = s.pool := by
+  induction l generalizing s with
+  | nil => exact ⟨rfl, rfl, rfl⟩
+  | cons i rest ih =>
+    rw [replayTxs_cons]
+    obtain ⟨a1, a2, a3⟩ := ih (blockStep e prop i s)
+    obtain ⟨b1, b2, b3⟩ := blockStep_frame e prop i s
+    exact ⟨a1.trans b1, a2.trans b2, a3.trans b3⟩
+
+theorem undoTxs_frame (e : Env) (l : List Nat) (s : St) :
+    (undoTxs e l s).pointer = s.pointer ∧ (undoTxs e l s).irrev = s.irrev ∧ (undoTxs e l s).pool = s.pool := by
+  induction l with
+  | nil => exact ⟨rfl, rfl, rfl⟩
+  | cons i rest ih =>
+    rw [undoTxs_cons]
+    obtain ⟨_, _, _, f1, f2, f3⟩ := undoPayFee_frame (e.tx i) (e.tx i).outs 0 (undoTx e (undoTxs e rest s) (e.tx i))
+    obtain ⟨a1, a2, a3⟩ := undoTx_frame e (undoTxs e rest s) (e.tx i)
+    exact ⟨f1.trans (a1.trans ih.1), f2.trans (a2.trans ih.2.1), f3.trans (a3.trans ih.2.2)⟩
+
 end XV.Chain
